@@ -907,6 +907,69 @@ func (h *hist) step() {
 		}
 		m.flag[f] = true
 		h.checkNotes(m, "Invalidate", f, required, allowed)
+	case op < 83 && !m.ro && len(h.pool) < 4 && r.IntN(3) == 0: // store and reload: the record is written as a database row and read back
+		// (rule values are stored with their dependencies in <rule>_deps columns; the record read back is backed by the
+		// row and rebuilds its dependency map from those columns on first use)
+		tr("StoreAndReload()")
+		fields := append([]string{}, plainFields...)
+		for i := 0; i < nRules; i++ {
+			// every rule field is read first (checked like any Get), so that storing computes nothing new
+			f := ruleName(i)
+			var res Value
+			err, failed := h.goDo("Get", func() { res = m.real.Get(h.th, SuStr(f)) })
+			if failed {
+				h.violate("C35/unexpected-error/Get", map[string]any{"error": err, "field": f})
+				return
+			}
+			wasValid := m.valid(f)
+			if want := h.get(m, f); !sameVal(res, want) {
+				h.valueMismatch(m, f, res, want, wasValid)
+				return
+			}
+			fields = append(fields, f)
+		}
+		for i := 0; i < nRules; i++ {
+			fields = append(fields, ruleName(i)+"_deps")
+		}
+		h.checkNoNotes("Get")
+		hdr := NewHeader([][]string{fields}, fields)
+		var rr *SuRecord
+		err, failed := h.goDo("StoreAndReload", func() {
+			stored := m.real.ToRecord(h.th, hdr)
+			rr = SuRecordFromRow(Row{DbRec{Record: stored}}, hdr, "", nil)
+		})
+		if failed || rr == nil {
+			h.violate("C35/unexpected-error/StoreAndReload", map[string]any{"error": err})
+			return
+		}
+		c := &rec{real: rr, plain: map[string]val{}, cached: map[string]bool{}, flag: map[string]bool{}, reads: map[string][]string{}, ever: map[string]map[string]bool{}}
+		h.nextID++
+		c.id = h.nextID
+		for k, v := range m.plain {
+			if v != (val{}) { // an empty value is stored as nothing
+				c.plain[k] = v
+			}
+		}
+		for i := 0; i < nRules; i++ {
+			f := ruleName(i)
+			if h.compute(m, f) == (val{}) {
+				continue // an empty rule value is not stored: the reloaded record computes it when asked
+			}
+			c.cached[f] = true
+			c.reads[f] = append([]string(nil), m.reads[f]...)
+			// the stored dependencies are everything the record has recorded for the rule so far
+			c.ever[f] = map[string]bool{}
+			for sname := range m.ever[f] {
+				c.ever[f][sname] = true
+			}
+		}
+		h.attachAll(c)
+		if h.hasCond || r.IntN(2) == 0 {
+			h.addObserver(c, false, r.IntN(2) == 0)
+		}
+		h.pool = append(h.pool, c)
+		h.rep.Count("stored_and_reloaded_records", 1)
+		h.checkNoNotes("StoreAndReload")
 	case op < 83: // copy
 		if len(h.pool) >= 4 {
 			tr("skip-copy")
